@@ -63,7 +63,7 @@ static L axes_gap(const Shape& s) {
 }
 
 // the general-ellipsoid closed forms go through numerically evaluated elliptic integrals: 1e-9 floor
-static L two_regime(L gap) { return gap < 2e-3L ? 16 * gap + 1e-9L : 64 * KF * EPS * (1 + 1 / (gap * gap)) + 1e-9L; }
+static L two_regime(L gap) { return gap < 2e-3L ? 48 * gap + 1e-9L : 64 * KF * EPS * (1 + 1 / (gap * gap)) + 1e-9L; }
 
 static void eshelby_case(const vf::Args& a, uint64_t idx) {
   vf::Rng g(a.seed, 2510, idx);
